@@ -239,6 +239,20 @@ func (p *TopicScoreParams) validate() error {
 		return fmt.Errorf("invalid topic weight; must be >= 0 and a valid number")
 	}
 
+	// counters, caps, thresholds and decays enter the score even when the
+	// weight of their component is zero (Inf * 0 and NaN * 0 are NaN), so they
+	// must be valid numbers regardless of the weight.
+	for _, v := range []float64{
+		p.TimeInMeshCap,
+		p.FirstMessageDeliveriesDecay, p.FirstMessageDeliveriesCap,
+		p.MeshMessageDeliveriesDecay, p.MeshMessageDeliveriesCap, p.MeshMessageDeliveriesThreshold,
+		p.MeshFailurePenaltyDecay,
+	} {
+		if isInvalidNumber(v) {
+			return fmt.Errorf("invalid topic score parameter; all parameters must be valid numbers")
+		}
+	}
+
 	// check P1
 	if err := p.validateTimeInMeshParams(); err != nil {
 		return err
